@@ -164,6 +164,12 @@ def worker_init():
     atexit.register(lambda: shutil.rmtree(_TMP[0], ignore_errors=True))
 
 
+def worker_exit():
+    if _TMP[0] is not None:
+        shutil.rmtree(_TMP[0], ignore_errors=True)
+        _TMP[0] = None
+
+
 def run_case(case):
     from pacti.contracts import PolyhedralIoContract
     from pacti.terms.polyhedra.serializer import polyhedral_termlist_from_string
